@@ -21,27 +21,34 @@ func VerifHarness_C37_pair() {
 	if lo < 0 {
 		lo = 0
 	}
-	l1 := verifLen("l1", lo, room+span)
-	l2 := verifLen("l2", lo, room+span)
+	// default: both lengths around the limit; L1LO..L2HI override (long limits: a name just over the
+	// limit against names as long as a complete '_' + hash)
+	l1 := verifLen("l1", verifParam("L1LO", lo), verifParam("L1HI", room+span))
+	l2 := verifLen("l2", verifParam("L2LO", lo), verifParam("L2HI", room+span))
 	s1 := verifString("s1", l1)
 	s2 := verifString("s2", l2)
+	h0 := verifHashCalls("hashcalls0")
 	n1 := GetLengthLimitedID(prefix, s1, maxLen)
+	h1 := verifHashCalls("hashcalls1")
 	n2 := GetLengthLimitedID(prefix, s2, maxLen)
+	h2 := verifHashCalls("hashcalls2")
+	hashed1, hashed2 := h1 > h0, h2 > h1 // did the implementation replace the suffix by a hash
 	verifReach("returned")
 	verifAssert("fits", len(n1) <= maxLen && len(n2) <= maxLen)
 	verifAssert("keeps-prefix", n1[:len(prefix)] == prefix)
-	short1 := len(prefix)+len(s1) > maxLen || (len(prefix)+len(s1) == maxLen && s1[0] == '_')
-	short2 := len(prefix)+len(s2) > maxLen || (len(prefix)+len(s2) == maxLen && s2[0] == '_')
-	if !short1 && l1 > 0 {
+	if !hashed1 && l1 > 0 {
 		verifAssert("unshortened-is-verbatim", n1 == prefix+s1)
 	}
+	verifAssert("hashed-when-too-long", hashed1 || len(prefix)+len(s1) <= maxLen)
 	if s1 == s2 {
 		verifAssert("deterministic", n1 == n2)
-	} else if !(short1 && short2) && !(l1 == 0 || l2 == 0) {
-		// equality of two shortened names is a truncated-hash collision (cryptographic assumption);
-		// every other pair of distinct identities must get distinct names.
+	} else if !(hashed1 && hashed2) && !(l1 == 0 || l2 == 0) {
+		// equality of two hashed names is a truncated-hash collision (cryptographic assumption);
+		// every other pair of distinct identities - in particular a verbatim name against a hashed
+		// one, for every value the hash could take - must get distinct names.
 		verifAssert("distinct", n1 != n2)
 	}
+	short2 := hashed2
 	if l1 == 0 && l2 > 0 && !short2 && s2 != "_" {
 		verifAssert("empty-distinct", n1 != n2)
 	}
